@@ -58,7 +58,7 @@ def run(ctx):
     ctx.assumptions += [
         "no write stalls >= 60 s (sendRuntimeMessage timeout not driven)",
         "payload equality is judged on the values a fresh CBOR decode yields (maps compared structurally)",
-        "v1 framing is exercised serially only (it carries no run IDs) in the C08 sessions",
+        "v1 framing carries no run IDs: exercised strictly serially (echo sessions here, fault enumeration in C08); it is outside the TLA+ model",
         "design variant of the model bound to the code: %s" % json.dumps(A.DESIGN),
     ]
     mc = [("serial2_unsolicited", dict(Runs="R2", Cap=2, Frag="TRUE", StepBeh="BehOkErr", SigRuns="R1", BadSigRuns="R1", Serial="TRUE"),
@@ -209,6 +209,19 @@ def run(ctx):
                 sessions.setdefault((sc["cap"], (), ()), []).append((sc["id"], out["events"]))
         ctx.extra["yield_points"] = npoints
         ctx.extra["yield_delay_scenarios"] = len(ydelay)
+    # the legacy v1 framing (no run IDs: strictly serial): the real client against a minimal v1 server built around
+    # the real CallableSchema; payload fidelity as above; a rejected input ends the stream and must come back as an error
+    v1 = []
+    for i in range(12 if thorough else 4):
+        pl = [1 + (i * 5 + k) % 9 for k in range(4)]            # valid payloads (catalogue entries 1..9)
+        runs = [dict(id="r%d" % (k + 1), beh="ok", echo=x) for k, x in enumerate(pl)]
+        if i % 2:
+            runs.append(dict(id="r9", beh="ok", echo=10 + i % 9))  # a rejected input last
+        v1.append(dict(id="v1echo/%d" % i, mode="v1echo", cap=i % 3, frag=bool(i % 2), seed=ctx.seed * 77 + i, runs=runs))
+    for sc, rr in zip(v1, A.run_driver(ctx, v1, label="c05v1")):
+        out = judge(ctx, sc, rr, "v1 session")
+        if out is not None:
+            ctx.count(sc["id"] + "/" + json.dumps([r["echo"] for r in sc["runs"]]))
     ctx.sample(dict(kind="stress session", id=stress[0]["id"], cap=stress[0]["cap"], runs=stress[0]["runs"][:4], workload=stress[0]["workload"]))
     ctx.extra["payload_catalogue"] = NPAYLOADS
     # ------------------------------------------------------------ trace validation
